@@ -1945,6 +1945,14 @@ impl StorageEngine {
         let shard = self.get_shard(db, &key)?;
         let mut shard_guard = shard.write().unwrap();
         
+        // Redis limits strings to 512 MB; this also keeps offset + len from overflowing
+        const MAX_STRING_LEN: usize = 512 * 1024 * 1024;
+        if offset > MAX_STRING_LEN || value.len() > MAX_STRING_LEN - offset {
+            return Err(FerrousError::Command(CommandError::Generic(
+                "string exceeds maximum allowed size (512MB)".to_string()
+            )));
+        }
+        
         let new_len = if let Some(stored_value) = shard_guard.data.get_mut(&key) {
             match &mut stored_value.value {
                 Value::String(bytes) => {
